@@ -99,6 +99,7 @@ type SimKnobs struct {
 	TZ       int      `json:"tz"` // 0 UTC, 1 +05:30, 2 -08:00
 	Watch    []string `json:"watch,omitempty"`
 	Stdio    int      `json:"stdio,omitempty"` // what stdout is connected to: 0 terminal, 1 pipe, 2 regular file
+	Strategy int      `json:"strategy,omitempty"` // 0 tape picks, 1 PCT-style priorities with change points
 }
 
 func genKnobs(rt *rapid.T) SimKnobs {
@@ -111,6 +112,7 @@ func genKnobs(rt *rapid.T) SimKnobs {
 	k.Delay = rapid.SampledFrom([]int{0, 0, 1, 3}).Draw(rt, "delay")
 	k.TZ = rapid.IntRange(0, 2).Draw(rt, "tz")
 	k.Stdio = rapid.SampledFrom([]int{0, 1, 1, 2}).Draw(rt, "stdio")
+	k.Strategy = rapid.SampledFrom([]int{0, 0, 0, 1}).Draw(rt, "strategy")
 	return k
 }
 
@@ -186,7 +188,7 @@ func RunCase(t *testing.T, p Property, scn any, knobs SimKnobs, tape []int, keep
 			resetRecs()
 			cfg := verifsim.Config{
 				Tape: tape, PoolMode: knobs.PoolMode, MapSeed: knobs.MapSeed, Starve: knobs.Starve,
-				Offset: time.Duration(knobs.OffsetMs) * time.Millisecond, KeepTrace: keep, Watch: knobs.Watch,
+				Offset: time.Duration(knobs.OffsetMs) * time.Millisecond, KeepTrace: keep, Watch: knobs.Watch, Strategy: knobs.Strategy,
 			}
 			if verifsim.Active() != nil {
 				verifsim.Deactivate()
